@@ -513,7 +513,11 @@ def client_corrupt(sx, which):
 
 URLS = [("ws://localhost:9000", "localhost", 9000, "/"), ("ws://example.com/chat", "example.com", 80, "/chat"), ("wss://example.com:8443/a/b?x=1&y=2", "example.com", 8443, "/a/b?x=1&y=2"),
         ("ws://host:8080/chat%20room?user=alice", "host", 8080, "/chat%20room?user=alice"), ("ws://host:8080/p%C3%A4th", "host", 8080, "/p%C3%A4th"),
-        ("ws://host:8080/?q=a%26b", "host", 8080, "/?q=a%26b"), ("ws://127.0.0.1:1/x", "127.0.0.1", 1, "/x"), ("ws://host/a?b", "host", 80, "/a?b")]
+        ("ws://host:8080/?q=a%26b", "host", 8080, "/?q=a%26b"), ("ws://127.0.0.1:1/x", "127.0.0.1", 1, "/x"), ("ws://host/a?b", "host", 80, "/a?b"),
+        # percent-encoded reserved characters, sub-delimiters, dot segments, empty segments: all of it is the application's business, verbatim
+        ("ws://host:8080/files/a%2Fb/meta", "host", 8080, "/files/a%2Fb/meta"), ("ws://host/a%3Fb?c=d%23e", "host", 80, "/a%3Fb?c=d%23e"),
+        ("ws://host/a+b:c@d;e=f,g~h!i*j'(k)", "host", 80, "/a+b:c@d;e=f,g~h!i*j'(k)"), ("ws://host/%7Euser/%25done/%2f", "host", 80, "/%7Euser/%25done/%2f"),
+        ("ws://host//double//slash/", "host", 80, "//double//slash/"), ("ws://host/a/../b/./c", "host", 80, "/a/../b/./c"), ("ws://host/p?x=%2F&y=a+b&z=%E2%82%AC", "host", 80, "/p?x=%2F&y=a+b&z=%E2%82%AC")]
 
 
 def client_request(sx, ui):
